@@ -1,9 +1,7 @@
 SPECIFICATION Spec
-CONSTANTS MaxRuns = 3 MaxTouch = 2
-  Scens <- ScenPlain1
-  Settings <- SettingsDefault
+CONSTANTS
+  Plans <- PlansQuickExport
   CreatedSetsChanged = TRUE
-  Reuses = {FALSE, TRUE}
   AutoReload = TRUE
   KeepHistory = TRUE
 INVARIANT Emitted
